@@ -16,7 +16,7 @@ var Vocab = []string{"var", "def", "eval", "print", "bind", "true", "false", "ni
 // failure whatever follows it (the unterminated string carries its own line
 // end: an open quote alone can be closed by a later quote on the same line and
 // the rest swallowed by a '#' comment).
-var LexFails = []string{"@", "$", "`", "\"unterminated\n", "12.", "42q", "0x1.", "\"foo\"1", "!", "1e", "1e+", "1.5x", "0xZ", "x\"q\"", "\\", "[", "~", "\x00", "\xff", "1.e3", "é"}
+var LexFails = []string{"@", "$", "`", "\"unterminated\n", "12.", "42q", "0x1.", "\"foo\"1", "!", "1e", "1e+", "1.5x", "\u2192", "\U0001F600", "é", "0xZ", "x\"q\"", "\\", "[", "~", "\x00", "\xff", "1.e3", "\U0001F600\U0001F600", "\u65e5\u672c"}
 
 // Damage applies one seeded fault to the rendered source of p and returns the
 // damaged bytes and the fault kind that fired.
@@ -107,7 +107,7 @@ func WithLexFail(r *prng.R, p *Prog, early bool) ([]byte, int) {
 		}
 		at = p.Toks[i].Start
 	}
-	lf := prng.Pick(r, LexFails[:12])
+	lf := prng.Pick(r, LexFails[:15])
 	// surrounded by blanks so that it cannot merge with a neighbouring token
 	out := append(append(append([]byte(nil), p.Src[:at]...), (" " + lf + " ")...), p.Src[at:]...)
 	return out, at + 1
